@@ -2,7 +2,7 @@
 C08 — property theorems, part 8: container-level round trips (bpki.c) and the nested-SEQUENCE facts they
 rest on: decode ∘ encode = id for PrivateKeyInfo, share container and EncryptedPrivateKeyInfo.
 -/
-import Bee2V.C08.ContRT
+import Bee2V.C08.ContCan
 namespace Bee2V.C08
 
 /-- the encoder interpreter on a well-formed tree of primitive codes and SEQUENCEs writes exactly the
@@ -33,5 +33,24 @@ example : (bpkiEdataEnc [1, 2, 3] [1, 2, 3, 4, 5, 6, 7, 8] 10000).isOk = true :=
 theorem derOIDDec2_accepts_code (oid e rest : List UInt8) (he : derOIDEnc oid = .ok e)
     (hlen : 13 + e.length + rest.length < W) : derOIDDec2 (e ++ rest) oid = .ok e.length :=
   derOIDDec2_roundtrip oid e rest he hlen
+
+/-! ### canonical direction -/
+
+/-- an accepted PrivateKeyInfo is exactly bpkiPrivkeyEnc of the key it yields -/
+theorem bpkiPrivkey_enc_dec (x : List UInt8) (hl : x.length < W) (c : Nat) (st : DSt) (h : bpkiPrivkeyDec x = .ok (c, st)) :
+    c ≤ x.length ∧ ∃ k, st.outs = [k] ∧ (k.length = 24 ∨ k.length = 32 ∨ k.length = 48 ∨ k.length = 64) ∧
+      bpkiPrivkeyEnc k = .ok (x.take c) := bpkiPrivkey_canonical x hl c st h
+
+/-- an accepted share container is exactly bpkiShareEnc of the share it yields -/
+theorem bpkiShare_enc_dec (x : List UInt8) (hl : x.length < W) (c : Nat) (st : DSt) (h : bpkiShareDec x = .ok (c, st)) :
+    c ≤ x.length ∧ ∃ k, st.outs = [k] ∧ (k.length = 17 ∨ k.length = 25 ∨ k.length = 33) ∧
+      bpkiShareEnc k = .ok (x.take c) := bpkiShare_canonical x hl c st h
+
+/-- an accepted EncryptedPrivateKeyInfo is exactly bpkiEdataEnc of the (edata, salt, iter) it yields: all seven
+    nested SEQUENCE lengths are forced (the seeded defect C08-m3 — Stop on the wrong anchor — contradicts this) -/
+theorem bpkiEdata_enc_dec (x : List UInt8) (hl : x.length < 4294967296) (c : Nat) (st : DSt)
+    (h : bpkiEdataDec x = .ok (c, st)) :
+    c ≤ x.length ∧ ∃ edata salt iter, st.outs = [salt, edata] ∧ st.nums = [iter] ∧
+      bpkiEdataEnc edata salt iter = .ok (x.take c) := bpkiEdata_canonical x hl c st h
 
 end Bee2V.C08
